@@ -9,7 +9,7 @@ EXTENDS Access, Json
 VARIABLE pc
 mcvars == <<world, tok, ev, pc>>
 
-MC_Sizes  == {1, 3, 4, 7}
+MC_Sizes  == {1, 3, 4, 6, 7}
 MC_SizesT == 1..7
 MC_World == {0, 1}
 
